@@ -5,15 +5,13 @@ C04 — idle means idle: runnable work is released.
 `todo` is what is pending.  All statements hold after EVERY history `ops` (no assumption on the
 order or outcome of replies, on worker behaviour, on the graph).
 
-Not proved here (full statement kept for the record):
-  quiesces : for a feedback-free graph, a finite list of external events and workers that
-             always answer, a state with `que = []` is reached.
-What is proved instead is its engine: `no_deadlock` (whenever something is pending and nothing
-is executing, the next dispatch releases something) together with `idle_views` / `que_exact`
-(when nothing is pending or executing every view is empty).  The harness drives every history
-to quiescence on the real code with always-answering workers.
+`quiesces` is the liveness clause: after any finite history of external events, with workers that
+always answer (any outcome, any values reported new), an acyclic feedback-free pipeline is idle
+after at most depth + 1 further dispatch rounds.  Feedback loops legitimately never quiesce (a
+fed-back new value re-triggers its consumer), hence the hypothesis; with feedback the engine of
+the argument still holds: `no_deadlock` + `idle_views` / `que_exact`.
 -/
-import DawgieVerif.Proofs.SchedInv
+import DawgieVerif.Proofs.SchedQuiesce
 
 namespace DawgieVerif.C04
 open DawgieVerif.Sched
@@ -138,6 +136,47 @@ theorem no_deadlock (g : Graph) (rank : Name → Nat)
   obtain ⟨t, ht⟩ := hunit
   exact List.ne_nil_of_mem (hrel y t hp ht)
 
+/-- **The pipeline quiesces.**  `g` acyclic and feedback-free (`rank` strictly grows along
+    ancestry and along children, bounded by `R`); any protocol-conforming history `ops`; not
+    paused.  Let the workers answer everything that is in flight (`answerAll`, with ANY outcomes
+    and ANY subsets of values reported new: `ans` is arbitrary), and then run `R + 1` rounds of
+    "dispatch tick, every unit in flight is answered".  Then nothing is pending, nothing is
+    executing, nothing is in flight and the work queue is empty — so every waiter on "queue
+    empty" or "nothing executing" is satisfied. -/
+theorem quiesces (g : Graph) (rank : Name → Nat) (R : Nat) (hr : Ranked g rank R)
+    (ts : List Target) (hts : ALL ∉ ts) (ops : List Op) (hv : ValidRun g (St.init ts) ops)
+    (hp : (run g (St.init ts) ops).paused = false) (ans : Name → Target → Answer) :
+    let s0 := answerAll g ans (run g (St.init ts) ops) (run g (St.init ts) ops).inflight
+    let s := rounds g ans (R + 1) s0
+    s.que = [] ∧ s.inflight = [] ∧ viewTodo s = [] ∧ viewDoing s = [] ∧
+      ∀ n, (s.node n).todo = [] ∧ (s.node n).doing = [] := by
+  obtain ⟨h2, h1⟩ := run_inv2 g (St.init ts) ops (inv_init ts) (inv2_init g ts hts) hv
+  generalize run g (St.init ts) ops = st at h1 h2 hp
+  obtain ⟨a, b, c, d⟩ := answerAll_inv g ans st.inflight st h1 h2 (fun p hp' => hp') h2.nd
+  have hfl0 : (answerAll g ans st st.inflight).inflight = [] := by
+    rw [List.eq_nil_iff_forall_not_mem]
+    intro p hp'
+    have := (c p).1 hp'
+    exact this.2 this.1
+  have hclean0 : CleanBelow rank 0 (answerAll g ans st st.inflight) := fun n hn => by omega
+  obtain ⟨hc, hi, hfl⟩ := rounds_clean g rank R hr ans (R + 1) 0 _ a b (by rw [d]; exact hp) hfl0 hclean0
+  intro s0 s
+  have hall : ∀ n, (s.node n).todo = [] ∧ (s.node n).doing = [] := by
+    intro n
+    have := hr.bound n
+    exact hc n (by omega)
+  have hq : s.que = [] := by
+    rw [List.eq_nil_iff_forall_not_mem]
+    intro n hn
+    have hl := hi.ql n hn
+    rw [live_iff, (hall n).1, (hall n).2] at hl
+    rcases hl with c' | c' | c'
+    · exact c' rfl
+    · exact c' rfl
+    · obtain ⟨t, ht⟩ := hi.ri n c'
+      rw [hfl] at ht; simp at ht
+  exact ⟨hq, hfl, by simp [viewTodo, hq], by simp [viewDoing, hq], hall⟩
+
 /-! non-vacuity on the chain 0 → 1 → 2 of `Props/C01` -/
 def chain : Graph :=
   { kind := fun _ => .task
@@ -152,6 +191,33 @@ def chain : Graph :=
     the situation in which stale entries used to remain -/
 example : (run chain (St.init [1])
     [.organize [0, 2] none [1], .dispatch, .reply 0 1 .failure 1 [] true]).que = [] := by
+  decide +kernel
+
+/-- the hypotheses of `quiesces` are satisfiable: the chain is ranked by `min n 2` -/
+example : Ranked chain (fun n => min n 2) 2 := by
+  constructor
+  · intro x a ha
+    simp only [chain] at ha
+    split at ha
+    · simp at ha; subst ha; simp_all
+    · split at ha
+      · simp at ha; rcases ha with h | h <;> subst h <;> simp_all
+      · simp at ha
+  · intro x c hc
+    simp only [chain] at hc
+    split at hc
+    · simp at hc; subst hc; simp_all
+    · split at hc
+      · simp at hc; subst hc; simp_all
+      · simp at hc
+  · intro n; exact Nat.min_le_right n 2
+  · intro v; rfl
+
+/-- the chain is ranked by node number when restricted to its three nodes; the quiescence
+    theorem applied to a concrete run: everything requested, root reports new values each time -/
+example :
+    let ans : Name → Target → Answer := fun _ _ => ⟨.success, [0, 1, 2], true, 1⟩
+    (rounds chain ans 3 (St.init [1] |> fun s => run chain s [.organize [0, 1, 2] none [1]])).que = [] := by
   decide +kernel
 
 example : Runnable chain (run chain (St.init [1]) [.organize [0, 2] none [1]]) 0 1 := by
